@@ -46,6 +46,8 @@ struct C16 : vf::Engine {
         for (int e = 0; e < ne; ++e) { static const char* K[] = {"mls", "mls", "mld", "mcf", "tpls", "tpld", "cf", "hp", "hv", "stop"}; p.ops.push_back(vf::mkop("elem").set("kind", K[r.below(10)]).set("seed", (long)(r.next() >> 16))); }
         int nc = r.chance(0.5) ? 0 : r.range(1, 2);
         for (int c = 0; c < nc; ++c) p.ops.push_back(vf::mkop("cons").set("kind", r.chance(0.5) ? "rod" : "ball").set("seed", (long)(r.next() >> 16)));
+        int nm = r.chance(0.6) ? 0 : r.range(1, 2);
+        for (int c = 0; c < nm; ++c) p.ops.push_back(vf::mkop("motion").set("seed", (long)(r.next() >> 16)));
         int nops = r.range(5, tier == "thorough" ? 80 : 45);
         for (int k = 0; k < nops; ++k) {
             int w = (int)r.below(100); Op o;
@@ -55,7 +57,8 @@ struct C16 : vf::Engine {
             else if (w < 29) o = vf::mkop("setu").set("seed", (long)(r.next() >> 16));
             else if (w < 43) o = vf::mkop("param").set("e", (int)r.below(ne)).setr("f", r.pick(std::vector<double>{1.5, 2.0, 3.0, 0.4})).set("which", (int)r.below(2));
             else if (w < 50) o = vf::mkop("enable").set("e", (int)r.below(ne)).set("on", (int)r.below(2));
-            else if (w < 54) o = vf::mkop("cenable").set("c", (int)r.below(3)).set("on", (int)r.below(2));
+            else if (w < 52) o = vf::mkop("cenable").set("c", (int)r.below(3)).set("on", (int)r.below(2));
+            else if (w < 54) o = vf::mkop("menable").set("c", (int)r.below(3)).set("on", (int)r.below(2));
             else if (w < 59) o = vf::mkop("lock").set("b", (int)r.below(nb)).set("level", (int)r.below(4));
             else if (w < 65) o = vf::mkop("grav").set("what", (int)r.below(4)).set("b", (int)r.below(nb)).setr("v", r.uni(0, 20));
             else if (w < 68) o = vf::mkop("euler").set("on", (int)r.below(2));
@@ -65,14 +68,14 @@ struct C16 : vf::Engine {
             else o = vf::mkop("check");
             p.ops.push_back(o);
         }
-        if (faults) { int nf = r.range(1, 2); for (int i = 0; i < nf; ++i) p.faults.push_back(vf::mkop("throw").set("at", r.range(1, 12))); }
+        if (faults) { int nf = r.range(1, 2); for (int i = 0; i < nf; ++i) p.faults.push_back(vf::mkop("throw").set("at", r.range(1, 6))); }
         return p;
     }
 
     // ------------------------------------------------------------------
     struct Sys {
         MultibodySystem sys; SimbodyMatterSubsystem matter; GeneralForceSubsystem forces; Force::Gravity gravity;
-        std::vector<MobilizedBody> mob; std::vector<Elem> elems; std::vector<Constraint> cons; ThrowCtl tc;
+        std::vector<MobilizedBody> mob; std::vector<Elem> elems; std::vector<Constraint> cons; std::vector<Motion> motions; ThrowCtl tc;
         Sys() : matter(sys), forces(sys), gravity(forces, matter, -YAxis, 9.8) {}
     };
 
@@ -110,6 +113,13 @@ struct C16 : vf::Engine {
                 else if (e.kind == "cf") e.f = Force::ConstantForce(S.forces, anyBody(), rv(), 10 * rv());
                 else { HForce* h = new HForce(S.forces, e.kind == "hp", nb, (uint64_t)op.num("seed", 1), &S.tc); e.h = h; e.f = Force::Custom(S.forces, h); if (e.kind != "hp") e.kind = "hv"; }
                 S.elems.push_back(e);
+            } else if (op.kind == "motion") {
+                Rng cr((uint64_t)op.num("seed", 1) * 131 + 3); MobilizedBody& a = S.mob[1 + cr.below(nb)];
+                bool dup = false; for (auto& mo : S.motions) if (mo.getMobilizedBody().getMobilizedBodyIndex() == a.getMobilizedBodyIndex()) dup = true;
+                if (dup) continue;
+                int lv = (int)cr.below(3); Motion::Level L = lv == 0 ? Motion::Position : lv == 1 ? Motion::Velocity : Motion::Acceleration;
+                if (cr.chance(0.5)) S.motions.push_back(Motion::Sinusoid(a, L, cr.uni(0.2, 1), cr.uni(0.5, 3), cr.uni(0, 3)));
+                else S.motions.push_back(Motion::Steady(a, cr.uni(-1, 1)));
             } else if (op.kind == "cons") {
                 Rng cr((uint64_t)op.num("seed", 1) * 31 + 7); MobilizedBody& a = S.mob[1 + cr.below(nb)]; MobilizedBody& b = S.mob[cr.below(nb + 1)];
                 if (a.getMobilizedBodyIndex() == b.getMobilizedBodyIndex()) continue;
@@ -140,6 +150,11 @@ struct C16 : vf::Engine {
         const Vector_<SpatialVec>& G = S.gravity.getBodyForces(s); for (int b = 0; b < G.size(); ++b) for (int i = 0; i < 3; ++i) put(G[b][1][i], "gravityBodyForce", b);
         S.matter.realizeCompositeBodyInertias(s);
         for (int b = 1; b < (int)S.mob.size(); ++b) { const SpatialInertia& I = S.matter.getCompositeBodyInertia(s, S.mob[b].getMobilizedBodyIndex()); put(I.getMass(), "compositeMass", b); for (int i = 0; i < 3; ++i) put(I.getMassCenter()[i], "compositeCOM", b); }
+        S.matter.realizeArticulatedBodyInertias(s);
+        for (int b = 1; b < (int)S.mob.size(); ++b) { const ArticulatedInertia& P = S.matter.getArticulatedBodyInertia(s, S.mob[b].getMobilizedBodyIndex()); const SpatialMat M = P.toSpatialMat(); for (int i = 0; i < 3; ++i) { put(M(0, 0)(i, i), "articulatedInertia", b); put(M(1, 1)(i, i), "articulatedInertia", b); put(M(0, 1)(i, (i + 1) % 3), "articulatedInertia", b); } }
+        { const Vec3 com = S.matter.calcSystemMassCenterLocationInGround(s); const SpatialVec mom = S.matter.calcSystemCentralMomentum(s); for (int i = 0; i < 3; ++i) { put(com[i], "systemCOM", 0); put(mom[0][i], "centralMomentum", 0); put(mom[1][i], "centralMomentum", 0); } }
+        { const Vector& qd = s.getQDot(); for (int i = 0; i < qd.size(); ++i) put(qd[i], "qdot", i); const Vector& qdd = s.getQDotDot(); for (int i = 0; i < qdd.size(); ++i) put(qdd[i], "qdotdot", i); }
+        for (auto& mo : S.motions) put(mo.isDisabled(s) ? 0 : 1, "motionEnabled", 0);
         Vector_<SpatialVec> reac; S.matter.calcMobilizerReactionForces(s, reac); for (int b = 0; b < reac.size(); ++b) for (int a = 0; a < 2; ++a) for (int i = 0; i < 3; ++i) put(reac[b][a][i], "reactionForce", b);
     }
 
@@ -148,7 +163,6 @@ struct C16 : vf::Engine {
         State f = S.sys.getDefaultState();
         S.matter.setUseEulerAngles(f, S.matter.getUseEulerAngles(s));
         S.sys.realizeModel(f);
-        f.setTime(s.getTime()); f.setQ(s.getQ()); f.setU(s.getU()); if (s.getNZ()) f.setZ(s.getZ());
         S.gravity.setMagnitude(f, S.gravity.getMagnitude(s)); S.gravity.setDownDirection(f, S.gravity.getDownDirection(s)); S.gravity.setZeroHeight(f, S.gravity.getZeroHeight(s));
         for (auto& m : S.mob) if (!m.isGround()) S.gravity.setBodyIsExcluded(f, m.getMobilizedBodyIndex(), S.gravity.getBodyIsExcluded(s, m.getMobilizedBodyIndex()));
         for (auto& e : S.elems) {
@@ -160,7 +174,10 @@ struct C16 : vf::Engine {
             if (e.f.isDisabled(s)) e.f.disable(f); else e.f.enable(f);
         }
         for (auto& c : S.cons) { if (c.isDisabled(s)) c.disable(f); else c.enable(f); }
+        for (auto& mo : S.motions) { if (mo.isDisabled(s)) mo.disable(f); else mo.enable(f); }
         for (auto& m : S.mob) if (!m.isGround()) { Motion::Level lv = m.getLockLevel(s); if (lv == Motion::NoLevel) m.unlock(f); else m.lockAt(f, m.getLockValueAsVector(s), lv); }
+        // lockAt() itself writes q and u, so the continuous variables are given last
+        f.setTime(s.getTime()); f.setQ(s.getQ()); f.setU(s.getU()); if (s.getNZ()) f.setZ(s.getZ());
         return f;
     }
 
@@ -187,6 +204,7 @@ struct C16 : vf::Engine {
                     // (2) the library's own restart: a copy keeps the variables and drops the cache
                     State c(s); std::vector<double> cc; snapshot(S, c, cc);
                     if (a.size() != b.size() || a.size() != cc.size()) { res.fail("result-shape", "shape", "history, fresh and copied States give different numbers of results " + where); S.tc.throwAt = savedThrow; return; }
+                    if (getenv("VERIF_DEBUG")) for (size_t i = 0; i < a.size(); ++i) if (names[i].find("multiplier") == 0 || names[i].find("udot") == 0 || names[i].find("uerr") == 0|| names[i].find("qerr") == 0) std::fprintf(stderr, "%s %s hist=%.17g fresh=%.17g copy=%.17g\n", where.c_str(), names[i].c_str(), a[i], b[i], cc[i]);
                     for (size_t i = 0; i < a.size(); ++i) {
                         double sc = std::max(std::abs(a[i]), std::abs(b[i]));
                         if (!(std::abs(a[i] - b[i]) <= 1e-9 * sc + 1e-10) && !(std::isnan(a[i]) && std::isnan(b[i]))) {
@@ -204,7 +222,7 @@ struct C16 : vf::Engine {
             };
             for (auto& op : p.ops) {
                 if (res.violation) break;
-                if (op.kind == "elem" || op.kind == "cons") continue;
+                if (op.kind == "elem" || op.kind == "cons" || op.kind == "motion") continue;
                 ++opn; std::string where = "[op " + std::to_string(opn) + ": " + op.line() + "]";
                 const Stage before = s.getSystemStage();
                 key.mix(std::hash<std::string>()(op.kind) % 997); key.mix((int)before);
@@ -226,6 +244,7 @@ struct C16 : vf::Engine {
                 }
                 else if (op.kind == "enable") { if (!S.elems.empty()) { Elem& e = S.elems[op.num("e", 0) % S.elems.size()]; if (op.num("on", 1)) e.f.enable(s); else e.f.disable(s); modified("enable-flag force " + e.kind); if (before >= Stage::Dynamics) ++probeEnableAfterRealize; } }
                 else if (op.kind == "cenable") { if (!S.cons.empty()) { Constraint& c = S.cons[op.num("c", 0) % S.cons.size()]; if (op.num("on", 1)) c.enable(s); else c.disable(s); modified("enable-flag constraint"); } }
+                else if (op.kind == "menable") { if (!S.motions.empty()) { Motion& mo = S.motions[op.num("c", 0) % S.motions.size()]; if (op.num("on", 1)) mo.enable(s); else mo.disable(s); modified("enable-flag motion"); } }
                 else if (op.kind == "lock") { MobilizedBody& m = S.mob[1 + op.num("b", 0) % nb]; int lv = (int)op.num("level", 0) % 4;
                     if (lv == 0) m.unlock(s); else if (lv == 1) m.lock(s, Motion::Position); else if (lv == 2) m.lock(s, Motion::Velocity); else m.lockAt(s, Vector(m.getNumU(s), 0.25), Motion::Acceleration);
                     modified("lock"); }
